@@ -21,18 +21,18 @@ def scalarOK (bt : Nat) (isBool : Bool) : Value → Bool
   | .uint32 v => !isBool && (bt == btUint32 || bt == btUint32z) && v < 2 ^ 32
   | .int64 v => !isBool && bt == btSint64 && v < 2 ^ 64
   | .uint64 v => !isBool && (bt == btUint64 || bt == btUint64z) && v < 2 ^ 64
-  | .float32 b => !isBool && bt == btFloat32 && b < 2 ^ 32
-  | .float64 b => !isBool && bt == btFloat64 && b < 2 ^ 64
+  | .float32 b => !isBool && bt == btFloat32 && b < 2 ^ 32 && (!isNaN32 b || b == float32Invalid)
+  | .float64 b => !isBool && bt == btFloat64 && b < 2 ^ 64 && (!isNaN64 b || b == float64Invalid)
   | .string s => !isBool && bt == btString && s.all safeByte
   | _ => false
 
 
-/-- what a scalar is expected to come back as: itself, except that a NaN has no payload in text (every NaN reads back
-as the canonical one) and a `typedef.Bool` other than 0/1 is the invalid 255 -/
+/-- what a scalar is expected to come back as: itself, except that a `typedef.Bool` other than 0/1 is the invalid 255;
+for floats: the float32 seen through float64 text, and "NaN" read as the invalid value (the only NaN `scalarOK` admits) -/
 def csvNormS : Value → Value
   | .bool v => mkBool v
   | .float32 b => .float32 (narrow32 (widen32 b))
-  | .float64 b => .float64 (if isNaN64 b then canonNaN64 else b)
+  | .float64 b => .float64 (if isNaN64 b then float64Invalid else b)
   | v => v
 
 
@@ -110,7 +110,7 @@ def expected (o : Opts) (files : List (List Message)) : List (List Message) := f
 def anyValue (p : Value → Bool) (files : List (List Message)) : Bool :=
   files.any fun file => file.any fun m => m.fields.any (fun f => p f.value) || m.devFields.any (fun d => p d.value)
 
-/-- KF-C19-1: a sint64 SCALAR (printed through `val.Uint64()` → "-1") -/
+/-- the class of KF-C19-1 (fixed): a sint64 SCALAR used to be printed through `val.Uint64()` → "-1" -/
 def hasInt64Scalar : List (List Message) → Bool := anyValue fun v => match v with | .int64 _ => true | _ => false
 
 /-- KF-C19-5: a float whose bit pattern is a NaN other than the canonical one (text "NaN" has no payload): includes the
